@@ -242,7 +242,18 @@ def main(root, argv):
     kf = known_findings(root)
     # 1. concrete failing inputs found by the property oracle on the implementation
     seen_keys = set()
+    other = []
+    def owners(key):
+        m = re.match(r'^c(\d\d)\.', key) or re.search(r':c(\d\d)\.', key)
+        if m: return {'C' + m.group(1)}
+        if key.startswith('known.'):
+            return {f[0] for f in kf if f[1] == key}
+        return None   # harness-level: counts for whichever check met it
     for v in (stats.get('violations') or []):
+        own = owners(v['key'])
+        if own is not None and prop not in own:
+            other.append(v['key'])
+            continue
         k = [f for f in kf if f[0] == prop and f[1] == v['key']]
         if k:
             if v['key'] not in seen_keys:
@@ -285,7 +296,7 @@ def main(root, argv):
         'theorems': theorems,
         'axioms': sorted(set(axioms)) if axioms else [],
         'proofs_checked_this_run': coq_ok,
-        'evaluations': max(total + sum(v for k, v in (stats.get('distribution') or {}).items() if k.startswith('oracle') or k.startswith('text')), 0),
+        'evaluations': max(total + sum(v for k, v in (stats.get('distribution') or {}).items() if k.startswith('oracle') or k.startswith('text') or k.startswith('block-')), 0),
         'model_cases': total, 'model_mismatches': nbad,
         'distinct_nontrivial': stats.get('distinct_nontrivial', 0),
         'rule': meta['rule'],
@@ -293,6 +304,7 @@ def main(root, argv):
         'distribution': (stats.get('distribution') or {}),
         'notes': (stats.get('notes') or []),
         'known_findings_reproduced': known_printed,
+        'violations_attributed_to_other_properties': sorted(set(other)),
     }
     if stats.get('exhaustive'):
         cov['exhaustive'] = True
